@@ -15,11 +15,23 @@
     Model: [Tracker.track] (frozen pipeline model, with the early stop of pure
     target_classes mode), [NsFilter.filter_ns], [Run2.run_shexc2] (the
     extraction with separate sources for the instance pass and the feature
-    pass) -- tied to /repo by the correspondence run of harness/vp/props/c16.py. *)
+    pass) -- tied to /repo by the correspondence run of harness/vp/props/c16.py.
+
+    [Run2.run_shapes2] / [run_shexc2] / [run_shexc_ign] run the shexing stage in
+    the order the code has ([ShexingFix.shex_cur], selected by the generated flag
+    [Consts.c_clean_before_merge]): with two documents a class WITH instances can
+    be empty at a threshold <= 1 -- namespaces_to_ignore covering the
+    instantiation property, [C16_ns_tau_ignored] -- and be referenced, and there
+    the two orders of ClassShexer's stages differ ([C16_two_documents_order_refuted]).
+    The one-document run in that order is [RunCur.run_shexc_cur]; it is the
+    modelled [Run.run_shexc] on [OrderIrrelevant.order_dom]
+    (Props/ShexStage.v: [E2E_class_mode_order_irrelevant]), hence the [_modelled]
+    forms below. *)
 From Coq Require Import List Ascii String ZArith NArith Bool Permutation.
 From Shexer Require Import Lib.PyStr Lib.Dict Gen.Consts Spec.Rdf Spec.Restrict Spec.Counts Model.Tracker Model.Profiler
-     Model.Freq Model.Shexing Model.Run Model.NsFilter Model.Run2 Proofs.ProfileChar Proofs.ShexKeys Proofs.EndToEnd Proofs.RestrictProofs
-     Proofs.RestrictCompose.
+     Model.Freq Model.FreqInst Model.Shexing Model.Run Model.NsFilter Model.Run2 Model.RunCur Proofs.ProfileChar Proofs.ShexKeys Proofs.EndToEnd Proofs.RestrictProofs
+     Proofs.RestrictCompose Proofs.OrderIrrelevant.
+From Shexer Require Import Proofs.Bin64Round Proofs.EndToEnd2.
 Import ListNotations.
 
 (** ** (cap1) the instances of every class are exactly its first k, in both target modes.
@@ -83,17 +95,46 @@ Print Assumptions C16_cap_is_restriction.
     another class (see [C16_plain_restriction_differs]). *)
 Theorem C16_cap_is_restriction_run : forall fa c thr g z, (0 < r_cap c)%Z -> (z <= 0)%Z ->
   NoDup g -> ids_faithful g ->
-  run_shexc fa c thr g =
+  run_shexc_cur fa c thr g =
   run_shexc2 fa (with_cap c z) thr (restrict_typing (r_tau c) (r_targets c) (Z.to_nat (r_cap c)) g) g.
 Proof. exact run_cap_is_restriction_graph. Qed.
 Print Assumptions C16_cap_is_restriction_run.
 
 Theorem C16_cap_is_restriction_shapes : forall fa c thr g z, (0 < r_cap c)%Z -> (z <= 0)%Z ->
   NoDup g -> ids_faithful g ->
-  run_shapes fa c thr g =
+  run_shapes_cur fa c thr g =
   run_shapes2 fa (with_cap c z) thr (restrict_typing (r_tau c) (r_targets c) (Z.to_nat (r_cap c)) g) g.
 Proof. exact run_shapes_cap_is_restriction. Qed.
 Print Assumptions C16_cap_is_restriction_shapes.
+
+(** the same for the modelled one-document run [Run.run_shexc] / [Run.run_shapes]
+    where the order of ClassShexer's stages is irrelevant *)
+Theorem C16_cap_is_restriction_run_modelled : forall fa c thr g z, (0 < r_cap c)%Z -> (z <= 0)%Z ->
+  NoDup g -> ids_faithful g -> order_dom fa c thr g = true ->
+  run_shexc fa c thr g =
+  run_shexc2 fa (with_cap c z) thr (restrict_typing (r_tau c) (r_targets c) (Z.to_nat (r_cap c)) g) g.
+Proof.
+  intros fa c thr g z Hk Hz Hnd Hf Hd. rewrite <- (run_shexc_cur_eq fa c thr g Hd).
+  exact (run_cap_is_restriction_graph fa c thr g z Hk Hz Hnd Hf).
+Qed.
+Print Assumptions C16_cap_is_restriction_run_modelled.
+
+Theorem C16_cap_is_restriction_shapes_modelled : forall fa c thr g z, (0 < r_cap c)%Z -> (z <= 0)%Z ->
+  NoDup g -> ids_faithful g -> order_dom fa c thr g = true ->
+  run_shapes fa c thr g =
+  run_shapes2 fa (with_cap c z) thr (restrict_typing (r_tau c) (r_targets c) (Z.to_nat (r_cap c)) g) g.
+Proof.
+  intros fa c thr g z Hk Hz Hnd Hf Hd. rewrite <- (run_shapes_cur_eq fa c thr g Hd).
+  exact (run_shapes_cap_is_restriction fa c thr g z Hk Hz Hnd Hf).
+Qed.
+Print Assumptions C16_cap_is_restriction_shapes_modelled.
+
+(** [order_dom] holds without remove_empty_shapes, and with it for thresholds in
+    [0, 1] when no class IRI starts with '%' or "@" (binary64: fewer than 2^53 triples) *)
+Theorem C16_order_dom_of_input : forall c thr g,
+  class_order_dom_b c thr g = true -> order_dom BAlg c thr g = true.
+Proof. exact class_order_dom_b_sound. Qed.
+Print Assumptions C16_order_dom_of_input.
 
 (** [ids_faithful] is no restriction on real input: it follows from "blank-node
     strings start with _: and IRI strings do not" *)
@@ -126,6 +167,25 @@ Theorem C16_cap_figures_exact : forall fa c thr g ns shapes,
         post_okR (scfg_of c ns) (fig_occ (r_tau c) I g (dir_of (s_inv st)) (sh_class sh) (s_prop st)) st.
 Proof. exact cap_figures_exact. Qed.
 Print Assumptions C16_cap_figures_exact.
+
+(** ... and for the one-document run with the stage in the order the code has *)
+Theorem C16_cap_figures_exact_cur : forall fa c thr g ns shapes,
+  (0 < r_cap c)%Z -> NoDup g -> ids_faithful g ->
+  run_shapes_cur fa c thr g = inl (ns, shapes) ->
+  let k := Z.to_nat (r_cap c) in
+  exists I,
+    track (r_tau c) (mode_of c) (r_cap c) g = inl I /\
+    (forall z, (z <= 0)%Z ->
+       track (r_tau c) (mode_of c) z (restrict_typing (r_tau c) (r_targets c) k g) = inl I) /\
+    (forall cl i, In cl (classes_of I i) <-> In i (first_k_instances (r_tau c) (r_targets c) k g cl)) /\
+    forall sh, In sh shapes ->
+      sh_n sh = N.of_nat (Nat.min k (List.length (class_subjects (r_tau c) (r_targets c) g (sh_class sh)))) /\
+      sh_n sh = class_count I (sh_class sh) /\
+      forall st, In st (sh_stmts sh) ->
+        (s_inv st = true -> r_inverse c = true) /\
+        post_okR (scfg_of c ns) (fig_occ (r_tau c) I g (dir_of (s_inv st)) (sh_class sh) (s_prop st)) st.
+Proof. exact cap_figures_exact_cur. Qed.
+Print Assumptions C16_cap_figures_exact_cur.
 
 (** the same statement for the extraction with separate sources (any cap, any
     instance document [gi]): figures are [occ] over the feature graph [gf]
@@ -163,6 +223,12 @@ Theorem C16_cap_large_id_run : forall fa c thr g z, (0 < r_cap c)%Z -> (z <= 0)%
 Proof. exact run_cap_large_id. Qed.
 Print Assumptions C16_cap_large_id_run.
 
+Theorem C16_cap_large_id_run_cur : forall fa c thr g z, (0 < r_cap c)%Z -> (z <= 0)%Z ->
+  (forall x, List.length (class_subjects (r_tau c) (r_targets c) g x) <= Z.to_nat (r_cap c)) ->
+  run_shexc_cur fa c thr g = run_shexc_cur fa (with_cap c z) thr g.
+Proof. exact run_cap_large_id_cur. Qed.
+Print Assumptions C16_cap_large_id_run_cur.
+
 (** ** (ns1) the code's test is "direct child of some listed namespace" *)
 Theorem C16_ns_child_rule : forall ign p, child_of_ns ign p = true <-> ignored ign p.
 Proof. exact child_of_ns_spec. Qed.
@@ -194,6 +260,29 @@ Print Assumptions C16_ns_nested.
 Theorem C16_ns_tau_ignored : forall ign tau g t, ignored ign tau -> In t (filter_ns ign g) -> tp t <> tau.
 Proof. exact tau_ignored_no_tau_feature. Qed.
 Print Assumptions C16_ns_tau_ignored.
+
+(** ... and then the order of ClassShexer's stages matters (all_classes mode,
+    threshold 4/5, default options): C has two instances and [p] on one of them,
+    D references C; without its typing constraint C is empty at the threshold.
+    [run_shexc2_old] is the two-document run with the stage in the OLD order
+    (merge, then [_clean_empty_shapes]): it loses D, the code keeps D with the
+    constraint on the node kind.  Hence [Run2] follows the flag. *)
+Lemma C16_two_documents_order_refuted :
+  c_clean_before_merge = true ->
+  exists c ign thr g,
+    child_of_ns ign (r_tau c) = true /\ r_targets c = None /\ class_iris_ok c g = true /\
+    wf_frac thr /\ fle BAlg thr (fone BAlg) = true /\
+    order_dom2 BAlg c thr g (filter_ns ign g) = false /\
+    exists t1 t2, run_shexc_ign BAlg c ign thr g = inl t1 /\
+                  run_shexc2_old BAlg c thr g (filter_ns ign g) = inl t2 /\ t1 <> t2.
+Proof. exact order_two_documents_refuted. Qed.
+
+(** where no class of the feature-pass profile is empty at the threshold
+    ([order_dom2], a boolean on the input) the two orders agree *)
+Theorem C16_two_documents_order_irrelevant : forall fa c thr gi gf,
+  order_dom2 fa c thr gi gf = true -> run_shexc2 fa c thr gi gf = run_shexc2_old fa c thr gi gf.
+Proof. exact run_shexc2_eq_old. Qed.
+Print Assumptions C16_two_documents_order_irrelevant.
 
 (** ** non-vacuity *)
 
